@@ -211,6 +211,10 @@ type Raft struct {
 	// The timestamp representing the time of the last contact by the leader.
 	lastContact time.Time
 
+	// Indicates whether this node has been stopped. A stopped node has closed its log
+	// and must restore its state from non-volatile storage when it is started again.
+	stopped bool
+
 	wg sync.WaitGroup
 
 	mu sync.Mutex
@@ -445,10 +449,11 @@ func (r *Raft) start(restore bool) error {
 		return nil
 	}
 
-	if restore {
+	if restore || r.stopped {
 		if err := r.restore(); err != nil {
 			return fmt.Errorf("could not restore state: %w", err)
 		}
+		r.stopped = false
 	}
 
 	if r.configuration == nil {
@@ -528,6 +533,7 @@ func (r *Raft) Stop() {
 
 	// Close or discard of any snapshot files.
 	r.resetSnapshotFiles()
+	r.stopped = true
 
 	r.logger.Info("node stopped")
 }
